@@ -125,22 +125,7 @@ def alphabet_of(fc, fe, with_seeks):
 
 
 def reader_abs_proof(wd):
-    import shutil
-    import subprocess
-    pd = os.path.join(wd, "tlaps")
-    shutil.rmtree(pd, ignore_errors=True)
-    os.makedirs(pd)
-    for m in ("ReaderAbs.tla", "ReaderAbsProofs.tla"):
-        shutil.copy(os.path.join(SPEC, m), pd)
-    try:
-        p = subprocess.run(["tlapm", "--nofp", "--threads", "4", "ReaderAbsProofs.tla"], cwd=pd, capture_output=True, text=True, timeout=900)
-    except (subprocess.TimeoutExpired, FileNotFoundError) as e:
-        raise ToolError("tlapm did not finish: %s" % e)
-    m = re.search(r"All (\d+) obligations proved", p.stdout + p.stderr)
-    if not m:
-        sys.stderr.write((p.stdout + p.stderr)[-2000:])
-        raise ToolError("ReaderAbsProofs.tla: unproved obligations")
-    return {"module": "ReaderAbsProofs", "theorem": "ASpec(T, K) => [](InRange /\\ EosOnlyAtEnd) for every T in Nat", "obligations_proved": int(m.group(1)), "engine": "tlapm (SMT, PTL)"}
+    return tlaps_proof(wd, "ReaderAbsProofs", ["ReaderAbs"], "ASpec(T, K) => [](InRange /\\ EosOnlyAtEnd) for every T in Nat")
 
 
 def run(pid):
